@@ -313,8 +313,30 @@ func execute(s sink.Sink, seed int64, sc scen.Scenario, tg trigger, sample bool)
 	// after the adversary's registration had been answered by the watcher (an update was in
 	// flight), or did the watcher know the newest state when it reacted?
 	class := "watcher-knew-newest-state"
-	if newest > newestAtFire {
-		class = "newest-state-enabled-after-the-watcher-reacted"
+	{
+		// stamp of the adversary's Register call, of the publication of A's newest version, and
+		// of subscribers of the channel going back to waiting
+		var advStamp, pubNewest int64 = -1, -1
+		for _, c := range r.W.Ledger.Calls() {
+			if c.Adversary && c.Method == "Register" && advStamp < 0 {
+				advStamp = c.Stamp
+			}
+		}
+		vs, ss := A.Published(id), A.PublishedStamps(id)
+		for i, v := range vs {
+			if v == newest && i < len(ss) {
+				pubNewest = ss[i]
+				break
+			}
+		}
+		for _, wr := range r.W.Ledger.Waits() {
+			if wr.ID == id && wr.Stamp > advStamp && pubNewest > wr.Stamp {
+				class = "newest-state-published-after-the-watcher-reacted"
+			}
+		}
+		if newest > newestAtFire {
+			class = "newest-state-published-after-the-watcher-reacted"
+		}
 	}
 	if !isReg || regVer < newest {
 		problems = append(problems, fmt.Sprintf("the adversary registered version %d; with the ledger idle and the challenge period still running, version %d is registered but the honest party's newest agreed version is %d", oldVer, regVer, newest))
